@@ -29,7 +29,23 @@ def _run_one(item):
             dim["p0"] = float(np.real(st.fock_prob([0] * st.num_modes, **({} if cfg != "gaussian" else {"cutoff": 6}))))
             dim["p1"] = float(np.real(st.fock_prob([1] + [0] * (st.num_modes - 1), **({} if cfg != "gaussian" else {"cutoff": 6}))))
         import strawberryfields as sf
-        return {"ok": True, "proj": proj, "dim": dim, "hbar": sf.hbar}
+        # every query is a pure function of the state: ask other questions, then ask the first ones again
+        changed = []
+        for name, call in (("is_coherent", lambda: st.is_coherent(0)), ("is_squeezed", lambda: st.is_squeezed(0)), ("squeezing", lambda: st.squeezing([0])),
+                           ("displacement", lambda: st.displacement([0])), ("quad_expectation", lambda: st.quad_expectation(0, 0.3)),
+                           ("wigner", lambda: st.wigner(0, np.array([0.0, 0.5]), np.array([0.0]))), ("reduced_dm", lambda: st.reduced_dm(0, **({"cutoff": 4} if cfg in ("gaussian", "bosonic") else {}))),
+                           ("parity_expectation", lambda: st.parity_expectation([0])), ("poly_quad_expectation", lambda: st.poly_quad_expectation(np.eye(2 * st.num_modes), np.zeros(2 * st.num_modes), 0.0))):
+            if not hasattr(st, name):
+                continue
+            try:
+                call()
+            except Exception:  # noqa: refusals are judged elsewhere (C16)
+                continue
+            again = [float(np.real(st.mean_photon(i)[0])) for i in range(st.num_modes)] + [float(np.real(st.fidelity_vacuum()))]
+            if max(abs(x - y) for x, y in zip(again, dim["nbar"] + [dim["fidvac"]])) > 1e-9:
+                changed.append(name)
+                break
+        return {"ok": True, "proj": proj, "dim": dim, "hbar": sf.hbar, "changed_by": changed}
     except Exception as e:  # noqa
         return {"ok": False, "err": type(e).__name__, "msg": str(e)[:300], "tb": traceback.format_exc()[-1000:]}
 
@@ -45,9 +61,11 @@ def c15(chk):
     chk.assumptions = ["hbar = 2 k^2 with rational k in {1, 1/2, 3/2, 2}; after homodyne the comparison is at 1e-5 (finite squeezing eps)"]
     pairs = [((1, 1), (1, 2)), ((3, 2), (2, 1))] if tier == "quick" else [((1, 1), (1, 2)), ((3, 2), (2, 1)), ((1, 2), (3, 2)), ((2, 1), (1, 1))]
     for (k1, k2) in pairs:
-        plans = [(2, 2, [("gaussian", None), ("bosonic", None)])] + ([(2, 1, [("fock", 12), ("fockmixed", 9)])] if (k1, k2) == pairs[0] else [])
+        plans = [(2, 2, [("gaussian", None), ("bosonic", None)]), (1, 1, [("gaussian", None), ("bosonic", None)])] + \
+                ([(2, 1, [("fock", 12), ("fockmixed", 9)])] if (k1, k2) == pairs[0] else [])
         if tier != "quick":
-            plans = [(2, 2, [("gaussian", None), ("bosonic", None), ("fock", 12), ("fockmixed", 9)]), (3, 1, [("gaussian", None), ("bosonic", None), ("fock", 9)])]
+            plans = [(2, 2, [("gaussian", None), ("bosonic", None), ("fock", 12), ("fockmixed", 9)]), (3, 1, [("gaussian", None), ("bosonic", None), ("fock", 9)]),
+                     (1, 2, [("gaussian", None), ("bosonic", None), ("fock", 14)])]
         for (n, depth, cfgs) in plans:
             r = chk.tlc("MC_Hbar", spec="SpecH", constants={"N": n, "Depth": depth, "AlphaId": "q", "PrefixId": "vac", "KNum": k1[0], "KDen": k1[1],
                                                            "K2Num": k2[0], "K2Den": k2[1], "EMIT": True}, invariants=["HbarFree", "EmitH"])
@@ -79,6 +97,9 @@ def c15(chk):
                         elif v == "bad":
                             chk.violation("ScalingLaw", dict(f, at=lab), dict(det, info=info, hbar=o["hbar"]))
                             bad = True
+                    for lab, o in (("hbar1", a), ("hbar2", b)):
+                        if o.get("ok") and o.get("changed_by"):
+                            chk.violation("QueryChangesState", dict(f, method=o["changed_by"][0], at=lab), dict(det, hbar=o["hbar"]))
                     if bad:
                         continue
                     tol = 1e-9 if not cfg.startswith("fock") else 1e-4
@@ -91,4 +112,44 @@ def c15(chk):
                             chk.violation("DimensionlessDiffers", dict(f, quantity=key), dict(det, hbar1=a["dim"][key], hbar2=b["dim"][key]))
                 mid = sel[len(sel) // 2]
                 chk.sample({"config": cfg, "k1": k1, "k2": k2, "program": short(mid["hist"]), "rescaled": short(mid["hist2"])})
+    # non-Gaussian programs (cubic phase and Kerr gates): self-composition on the finite phase space, replay on the Fock simulators
+    for (k1, k2) in pairs[:1] if tier == "quick" else pairs:
+        for (n, depth, cfgs) in ([(1, 2, [("fock", 16)])] if tier == "quick" else [(1, 2, [("fock", 18), ("fockmixed", 12)]), (2, 1, [("fock", 10)])]):
+            r = chk.tlc("MC_HbarNG", constants={"N": n, "Depth": depth, "KNum": k1[0], "KDen": k1[1], "K2Num": k2[0], "K2Den": k2[1], "EMIT": True},
+                        invariants=["HbarFreeFinite", "EmitInv"])
+            items = [it for it in r.json if any(o["name"] in ("Vgate", "Kgate") for o in it["hist"])]
+            for cfg, cutoff in cfgs:
+                runs = []
+                for which, k in (("hist", k1), ("hist2", k2)):
+                    _CFG.update(cfg=cfg, cutoff=cutoff, n=n, which=which)
+                    common.warm(fock=True)
+                    runs.append(common.pmap(_run_one, items, hbar=2.0 * (k[0] / k[1]) ** 2))
+                for it, a, b in zip(items, runs[0], runs[1]):
+                    chk.traces += 2
+                    names = [o["name"] for o in it["hist"][2:]]
+                    f = {"backend": cfg, "op": "+".join(sorted(set(names))), "measures": False, "non_gaussian": True}
+                    chk.count(key=(cfg, str(k1), str(k2), json.dumps(it["hist"])), nontrivial=True)
+                    det = {"config": cfg, "cutoff": cutoff, "k1": k1, "k2": k2, "program": short(it["hist"]), "rescaled": short(it["hist2"])}
+                    if not a["ok"] or not b["ok"]:
+                        o = a if not a["ok"] else b
+                        chk.violation("UnexpectedError", dict(f, error=o["err"]), dict(det, msg=o["msg"]))
+                        continue
+                    tr = min(a["proj"].get("trace", 1.0), b["proj"].get("trace", 1.0))
+                    if tr < 1 - 1e-3:
+                        chk.inconclusive += 1
+                        continue
+                    tol = 3 * cutoff * (max(0.0, 1 - tr)) ** 0.5 + 1e-6
+                    for key in a["dim"]:
+                        x, y = np.atleast_1d(a["dim"][key]), np.atleast_1d(b["dim"][key])
+                        d = float(np.max(np.abs(x - y)))
+                        if d > tol * (1 + float(np.max(np.abs(x)))):
+                            chk.violation("DimensionlessDiffers", dict(f, quantity=key), dict(det, hbar1=a["dim"][key], hbar2=b["dim"][key], tol=tol))
+                    # quadrature means scale with sqrt(hbar), covariances with hbar
+                    # (project_state reports moments in hbar-free kernel units, i.e. already divided by sqrt(hbar/2) and hbar/2)
+                    ma, mb = np.array(a["proj"]["mu"]), np.array(b["proj"]["mu"])
+                    Va, Vb = np.array(a["proj"]["V"]), np.array(b["proj"]["V"])
+                    d = float(max(np.max(np.abs(ma - mb)), np.max(np.abs(Va - Vb))))
+                    if d > 4 * tol * (1 + float(np.max(np.abs(Va)))):
+                        chk.violation("ScalingLaw", dict(f, at="pair"), dict(det, diff=d, tol=tol))
+            chk.sample({"config": "fock", "k1": k1, "k2": k2, "program": short(items[len(items) // 2]["hist"]), "rescaled": short(items[len(items) // 2]["hist2"])})
     chk.exhaustive = True
